@@ -847,4 +847,36 @@ theorem takeBytes_some : ∀ (s : List Char) (o : Nat) (pre : List Char),
           exact ⟨post, by simp [h1], by simp [len8]; omega⟩
       · cases h
 
+/-! ### Prefixes of editor histories are editor histories -/
+
+theorem Spec.run_prefix : ∀ (x y : List Spec.Event) (d : Option Spec.Doc) (ed : Option Spec.Doc),
+    Spec.run d (x ++ y) = some ed → ∃ ed1, Spec.run d x = some ed1 ∧ Spec.run ed1 y = some ed := by
+  intro x
+  induction x with
+  | nil => intro y d ed h; exact ⟨d, rfl, h⟩
+  | cons e es ih =>
+    intro y d ed h
+    simp only [List.cons_append, Spec.run] at h ⊢
+    cases hs : Spec.step d e with
+    | none => simp [hs] at h
+    | some d1 =>
+      simp only [hs] at h ⊢
+      exact ih y d1 ed h
+
+theorem Spec.lfHistory_prefix : ∀ (x y : List Spec.Event) (d : Option Spec.Doc),
+    Spec.lfHistory d (x ++ y) = true → Spec.lfHistory d x = true := by
+  intro x
+  induction x with
+  | nil => intro y d _; rfl
+  | cons e es ih =>
+    intro y d h
+    simp only [List.cons_append, Spec.lfHistory, Bool.and_eq_true] at h ⊢
+    refine ⟨h.1, ?_⟩
+    cases hs : Spec.step d e with
+    | none => rfl
+    | some d1 =>
+      have h2 := h.2
+      simp only [hs] at h2
+      exact ih y d1 h2
+
 end TrustVerif.C14
